@@ -40,7 +40,28 @@ def check(ctx, rep, spec):
         rep.disagree('harness-exc', {'spec': spec, 'enc': 'FAST'}, {'exc': repr(e)[:200], 'tb': traceback.format_exc(limit=5)[-700:]})
 
 
+def check_neighborhood(ctx, rep):
+    """_iter_neighborhood vs Adsg.neighborhood, exhaustive for all boxes up to 3 variables x 4 options x all fixed masks."""
+    import itertools
+    from adsg_core.optimization.hierarchy.fast import FastHierarchyAnalyzer
+    an = FastHierarchyAnalyzer.__new__(FastHierarchyAnalyzer)
+    drv = ctx.driver
+    for nv in (1, 2, 3):
+        for n_opts in itertools.product(range(1, 5 if nv < 3 else 4), repeat=nv):
+            an.__dict__['n_opts'] = list(n_opts)
+            for x in itertools.product(*[range(n) for n in n_opts]):
+                for fx in itertools.product((False, True), repeat=nv):
+                    got = [list(v) for v in an._iter_neighborhood(list(x), list(fx))]
+                    exp = drv.ask('neighborhood', n_opts=list(n_opts), x=list(x), fixed=list(fx))
+                    rep.case({'fn': 'neighborhood', 'n_opts': n_opts, 'x': x, 'fixed': fx}, nontrivial=len(exp) >= 2)
+                    if got != exp:
+                        rep.disagree('iter-neighborhood', {'n_opts': list(n_opts), 'x': list(x), 'fixed': list(fx)}, {'impl': got[:6], 'model': exp[:6]})
+                        return
+
+
 def run(ctx, rep):
+    if ctx.shard == 0:
+        check_neighborhood(ctx, rep)
     n = ctx.pick(300, 6000)
     i = 0
     for i in range(n):
